@@ -2751,4 +2751,16 @@ theorem runOps_good {P : Params} {init : Fs} (hWF : WF P init) (ops : List Op) :
         · exact r3 h
 
 
+/-! ### the generalised counter logic (finding F26) -/
+
+theorem genLoop_stuck (total : Nat) (ds : List Nat) : ∀ pending, pending < total → genLoop total pending ds = false := by
+  induction ds with
+  | nil => intro _ _; rfl
+  | cons d ds ih =>
+    intro pending h
+    simp only [genLoop]
+    have h1 : min d pending ≠ total := by omega
+    simp only [h1, if_false]
+    exact ih _ (by omega)
+
 end DarkluaModel.C10
